@@ -655,14 +655,8 @@ func caseVH(h *H, r *hlib.Rng, variant string) {
 	}
 }
 
-func classOf(m string) string {
-	for i := 0; i < len(m); i++ {
-		if m[i] == '+' {
-			return m[:i] + "+reroot"
-		}
-	}
-	return m
-}
+// classOf: the mutation names are already stable classes (no random values in them)
+func classOf(m string) string { return m }
 
 // monitorAuxAccepted: what the property promises about an accepted merge-mined header, checked on the real
 // objects with crypto/sha256 and plain byte search.
